@@ -47,6 +47,35 @@ def tlv_enc(kind, value):
     return bytes([kind]) + len(value).to_bytes(2, "big") + value
 
 
+def natural_tlv(rng):
+    """(type, value) in the shape the protocol document gives each registered type (and just outside
+    it): a change keyed on one type's semantics (a CRC check, the 128-byte unique-id limit, SSL
+    sub-TLVs) is invisible to uniformly random types and lengths."""
+    c = rng.randrange(10)
+    if c == 0:
+        return 0x01, rng.choice([b"h2", b"http/1.1", b"", b"\x02h2\x08http/1.1"])
+    if c == 1:
+        return 0x02, rng.choice([b"example.org", b"a", b"xn--e1afmkfd.xn--p1ai", b"\xc3\xa9.example", b""])
+    if c == 2:
+        return 0x03, rng.choice([bytes(4), b"\xff" * 4, rand_bytes(rng, 4), rand_bytes(rng, 3), rand_bytes(rng, 5)])
+    if c == 3:
+        return 0x04, bytes(rng.choice([0, 1, 2, 4, 13]))
+    if c == 4:
+        return 0x05, rand_bytes(rng, rng.choice([0, 1, 16, 127, 128, 129, 130, 200]))
+    if c == 5:
+        sub = b"".join(tlv_enc(k, v) for k, v in rng.sample(
+            [(0x21, b"TLSv1.3"), (0x22, b"client.example"), (0x23, b"ECDHE-RSA-AES128-GCM-SHA256"),
+             (0x24, b"SHA256"), (0x25, b"RSA2048")], rng.randint(0, 3)))
+        return 0x20, bytes([rng.choice([0, 1, 3, 5, 7, 255])]) + rng.choice([bytes(4), b"\x00\x00\x00\x01", rand_bytes(rng, 4)]) + sub
+    if c == 6:
+        return rng.choice([0x21, 0x22, 0x23, 0x24, 0x25]), rng.choice([b"TLSv1.2", b"", b"x" * 40])
+    if c == 7:
+        return 0x30, rng.choice([b"ns1", b"/var/run/netns/blue", b""])
+    if c == 8:
+        return rng.choice([0xE0, 0xEA, 0xEE, 0xEF, 0xF0, 0xF7, 0xF8, 0xFF]), rand_bytes(rng, rng.choice([0, 4, 9]))
+    return rng.choice([0x06, 0x1F, 0x26, 0x2F, 0x31, 0x00]), rand_bytes(rng, rng.choice([0, 4, 128, 129]))
+
+
 def rand_tlvs(rng, budget, maxn=5):
     """A well-formed TLV section of at most `budget` bytes."""
     out = b""
@@ -54,7 +83,12 @@ def rand_tlvs(rng, budget, maxn=5):
         room = budget - len(out) - 3
         if room < 0:
             break
-        ln = rng.choice([0, 1, 2, 3, 7, 255, 256, 1000, room])
+        if rng.random() < 0.35:
+            kind, val = natural_tlv(rng)
+            if len(val) <= room:
+                out += tlv_enc(kind, val)
+                continue
+        ln = rng.choice([0, 1, 2, 3, 4, 5, 7, 128, 129, 255, 256, 1000, room])
         ln = min(ln, room, 65535)
         kind = rng.choice([1, 2, 3, 4, 5, 0x20, 0x21, 0x30, 0, 255, rng.getrandbits(8)])
         out += tlv_enc(kind, rand_bytes(rng, ln))
@@ -257,6 +291,25 @@ def gen_truncations(rng, headers, every=1):
         for c in cuts:
             ops.append("v2 " + spec(h[:c]))
     return ops
+
+
+def big_header_cuts(rng, tier):
+    """(header, cut) pairs for accepted headers whose declared length sits in the last 16 values of
+    the u16 range (16 + length no longer fits 16 bits), cut at every one of the last bytes and at a
+    few early positions: presence checks done in a narrow or saturating type differ only here."""
+    out = []
+    lengths = [65519, 65520, 65535] if tier == "quick" else [65500, 65519, 65520, 65521, 65527, 65534, 65535]
+    fams = [0x00, 0x11, 0x31] if tier == "quick" else [0x00, 0x11, 0x21, 0x31, 0x12]
+    for length in lengths:
+        for afp in fams:
+            size = FAM_SIZE[afp >> 4]
+            fill = bytes([rng.choice([0x00, 0x41, 0xFF])]) * (length - size)
+            h = header(rng.choice(VALID_VC), afp, length, rand_bytes(rng, size) + fill)
+            n = len(h)
+            cuts = [16, 17, 16 + size, 300, 32768, 65000] + list(range(n - 40, n))
+            for c in sorted(set(c for c in cuts if 0 <= c < n)):
+                out.append((h, c))
+    return out
 
 
 BIG_TRAILERS = [65519, 65520, 65529, 65535, 65536, 65537, 65552, 70000, 131077]
